@@ -440,6 +440,78 @@ def add_names(rng, case, scope):
     return case
 
 
+# ----------------------------------------------------------------------------------------------------------------------
+# family "the call REPEATED after the caller worked on the earlier result": a result belongs to the caller, who goes on with it through
+# the ordinary API — re-attaches a twig (`r1.node(k).pid = j`), relabels a node, renumbers it 1-based for export (`ndata["id"] += 1`),
+# rescales a column in place — and then sorts the untouched input again (the same object, an equal one built independently, the
+# same topology through another entry point).  Every one of these calls gets a single-rooted tree and must return a relabelling of
+# ITS input.  The recipe (entry points, edits) is stored in the case; all objects are built in run().
+R_ENTRIES = ["sort_tree", "sort_nodes", "sort_nodes_", "sort_nodes_impl", "read_swc"]
+R_EDITS = ["reattach", "retype", "renumber", "overwrite"]
+
+
+def add_repeat(rng, case, j):
+    n = len(case["ids"])
+    tree_ok = case["form"] != "table"
+    ents = [e for e in R_ENTRIES if tree_ok or e != "sort_tree"]
+    first = ents[j % len(ents)]
+    again = [rng.choice(["same", "equal"]) + ":" + first]
+    if rng.random() < 0.6:
+        again.append(rng.choice(["same", "equal"]) + ":" + rng.choice(ents))
+    ops = list(dict.fromkeys([R_EDITS[j % len(R_EDITS)]] + [o for o in R_EDITS if rng.random() < 0.3]))
+    edits = []
+    for op in ops:
+        ed = {"op": op}
+        if op == "reattach":
+            ed["moves"] = [[k, rng.choice(["root", "prev", "grandparent"])] for k in sorted(rng.sample(range(2, max(n, 2)), max(0, min(n - 2, rng.randint(1, 3)))))]
+        elif op == "retype":
+            ed["k"], ed["v"] = rng.randrange(max(n, 1)), rng.randint(8, 60)
+        elif op == "renumber":
+            ed["off"] = rng.choice([1, 1, 2, 10, 1000, n])
+        edits.append(ed)
+    case["repeat"] = {"first": first, "edits": edits, "again": again}
+    case["class"] = f"repeat/{first}/{'+'.join(dict.fromkeys(ops))}/again-" + "+".join(again)
+    return case
+
+
+def apply_edit(kind, h, ed, cn=lambda c: c):
+    """one ordinary step of the caller on a result: kind tree (Tree), df (DataFrame), impl ({"id","pid","indices"} arrays)"""
+    col = (lambda c: h.ndata[cn(c)]) if kind == "tree" else (lambda c: h[c])
+    if kind == "df":
+        getv = lambda c, k: h.iloc[k, h.columns.get_loc(cn(c))]
+        def setv(c, k, v): h.iloc[k, h.columns.get_loc(cn(c))] = v
+    elif kind == "tree":
+        getv = lambda c, k: getattr(h.node(k), c)
+        def setv(c, k, v): setattr(h.node(k), c, v)
+    else:
+        getv = lambda c, k: h[c][k]
+        def setv(c, k, v): h[c][k] = v
+    op = ed["op"]
+    if op == "reattach":
+        for k, to in ed["moves"]:
+            cur = int(getv("pid", k))
+            new = 0 if to == "root" else k - 1 if to == "prev" else int(getv("pid", cur)) if cur > 0 else 0
+            setv("pid", k, max(new, 0))
+    elif op == "retype" and kind != "impl":
+        setv("type", ed["k"], ed["v"])
+    elif op == "renumber":
+        if kind == "df":
+            h[cn("id")] += ed["off"]
+            h.loc[h[cn("pid")] >= 0, cn("pid")] += ed["off"]
+        else:
+            i, p = col("id"), col("pid")
+            i += ed["off"]
+            p[p >= 0] += ed["off"]
+    elif op == "overwrite":
+        if kind == "impl":
+            h["indices"][:] = h["indices"][::-1].copy()
+        elif kind == "df":
+            h[cn("r")] *= 2
+        else:
+            r = col("r")
+            r *= 2
+
+
 ROW_LABELS = ["permuted", "reversed", "shifted", "gapped", "text", "float", "range"]
 
 
@@ -471,6 +543,9 @@ def row_labels(spec, n):
 
 class SortSuite(Suite):
     name = "c05.sort"
+
+    def __init__(self):
+        self._trail = {}  # topology -> the call sequences (family "repeated after an edit") this process ran on it
 
     def cases(self, rng, tier, widen):
         out = []
@@ -562,6 +637,16 @@ class SortSuite(Suite):
                               rows=["shuffled", "by-id", "by-id-desc"][j % 3])
                 out.append(add_names(rng, c, scope))
                 j += 1
+        # the call repeated after the caller worked on the earlier result (state carried between calls): every entry point x the kinds of
+        # edit x the same input object / an equal one built independently / the same topology through another entry point
+        for j in range(30 if quick else 120):
+            n = rng.choice([3, 5, 8, 13, 21] if quick else [3, 5, 8, 13, 21, 40, 90])
+            form = ["rootany", "table", "root0", "rootany", "sorted", "table"][j % 6]
+            for t in range(8):  # shapes may come out shorter than asked for: a twig to re-attach needs three nodes
+                c = sort_case(rng, n, gen.pick_shape(rng, j + t), form, span=ID_SPANS[j % 3] if j % 2 else None, rows=["shuffled", "by-id", "by-id-desc"][j % 3])
+                if len(c["ids"]) >= 3:
+                    break
+            out.append(add_repeat(rng, c, j // 2 + j))
         return out
 
     def run(self, case):
@@ -574,8 +659,6 @@ class SortSuite(Suite):
         pids = np.array(case["pids"], dtype=np.int32)
         n = len(ids)
         res = {}
-        (nid, npid), indices = sort_nodes_impl((ids.copy(), pids.copy()))
-        res["impl"] = {"new_ids": nid.tolist(), "new_pids": npid.tolist(), "indices": indices.tolist()}
         # the caller's column names: N maps the standard field to the column that holds it; kw is handed to every entry point that takes it
         N = dict(case.get("names") or {})
         cn = lambda c: N.get(c, c)
@@ -594,8 +677,60 @@ class SortSuite(Suite):
         if case.get("labels"):
             df.index = row_labels(case["labels"], n)
         before = df.copy()
-        d2 = sort_nodes(df, **kw)
-        res["df_input_unchanged"] = bool(df.equals(before))
+        text = "".join(f"{case['ids'][k]} {case['types'][k]} {case['key'][k]} 0 0 {case['r'][k]!r} {case['pids'][k]}"
+                       + "".join(f" {case['extra'][j][k]!r}" for j in range(len(case["extra"]))) + "\n" for k in range(n))
+        xc = [f"e{j}" for j in range(len(case["extra"]))]
+
+        def fresh(entry):  # an input of that entry point, built from the case
+            if entry == "sort_tree":
+                return Tree(n, **{k: v.copy() for k, v in cols.items()}, **kw)
+            if entry in ("sort_nodes", "sort_nodes_"):
+                return before.copy()
+            return (ids.copy(), pids.copy()) if entry == "sort_nodes_impl" else text
+
+        def call(entry, inp):  # -> kind, handle the caller goes on with, packer
+            if entry == "sort_tree":
+                st = sort_tree(inp)
+                return "tree", st, lambda: pack(lambda c: st.get_ndata(c).tolist())
+            if entry == "sort_nodes_impl":
+                (a, b), ix = sort_nodes_impl(inp)
+                h = {"id": a, "pid": b, "indices": ix}
+                src = {"x": np.array(case["key"]), "type": np.array(case["types"]), "r": np.array(case["r"], dtype=np.float32),
+                       **{f"e{j}": np.array(e, dtype=np.float32) for j, e in enumerate(case["extra"])}}
+                return "impl", h, lambda: pack(lambda c: (h[c] if c in ("id", "pid") else src[c][h["indices"]]).tolist())
+            if entry == "read_swc":
+                with warnings.catch_warnings():
+                    warnings.simplefilter("ignore")
+                    d, _ = read_swc(io.StringIO(inp), sort_nodes=True, extra_cols=xc or None, **kw)
+            elif entry == "sort_nodes":
+                d = sort_nodes(inp, **kw)
+            else:
+                d = inp.copy()  # the caller keeps the untouched table; the in-place form works on a copy of it
+                sort_nodes_(d, **kw)
+            return "df", d, lambda: pack(lambda c: d[c].tolist())
+
+        def scenario(rep):  # an earlier call, the caller's edits of its result, the calls repeated
+            r = {"again": []}
+            inputs = {rep["first"]: fresh(rep["first"])}
+            kind, h, pk = call(rep["first"], inputs[rep["first"]])
+            r["first"] = pk()
+            for ed in rep["edits"]:
+                apply_edit(kind, h, ed, cn)
+            r["edited"] = pk()
+            for spec in rep["again"]:
+                how, entry = spec.split(":")
+                try:
+                    inp = inputs.setdefault(entry, fresh(entry)) if how == "same" else fresh(entry)
+                    r["again"].append([spec, call(entry, inp)[2]()])
+                except Exception as e:  # noqa: BLE001
+                    r["again"].append([spec, {"exc": type(e).__name__, "msg": str(e)[:200]}])
+            return r
+
+        # what this process did on this very topology before (call sequences of the family "repeated after an edit"): a result is a
+        # function of the input alone; if this case fails, the oracle stores the sequence in the case ("after") so that the replay
+        # starts with it
+        topo = (tuple(case["ids"]), tuple(case["pids"]))
+        res["trail"] = [t for t in self._trail.get(topo, []) if t not in (case.get("after") or [])][-8:]
 
         def pack(get, ex=True):
             o = {"id": [int(v) for v in get(cn("id"))], "pid": [int(v) for v in get(cn("pid"))], "key": [int(v) for v in get(cn("x"))],
@@ -616,6 +751,15 @@ class SortSuite(Suite):
                     o["xcols"][c["name"]] = [norm_x(c["kind"], v) for v in col]
             return o
 
+        for rec in case.get("after") or []:
+            try:
+                scenario(rec)
+            except Exception:  # noqa: BLE001 - the earlier calls are not what is judged here
+                pass
+        (nid, npid), indices = sort_nodes_impl((ids.copy(), pids.copy()))
+        res["impl"] = {"new_ids": nid.tolist(), "new_pids": npid.tolist(), "indices": indices.tolist()}
+        d2 = sort_nodes(df, **kw)
+        res["df_input_unchanged"] = bool(df.equals(before))
         res["df"] = pack(lambda c: d2[c].tolist())
         d3 = sort_nodes(d2, **kw)
         res["df2"] = pack(lambda c: d3[c].tolist())
@@ -706,6 +850,9 @@ class SortSuite(Suite):
             h["df_inplace"] = pack(lambda c: d[c].tolist())
             h["is_sorted_out"] = bool(is_sorted((d["id"].to_numpy(), d["pid"].to_numpy())))
             res["hist"] = h
+        if case.get("repeat"):
+            res["repeat"] = scenario(case["repeat"])
+            self._trail.setdefault(topo, []).append(case["repeat"])
         return res
 
     def lines(self, case, res):
@@ -722,7 +869,13 @@ class SortSuite(Suite):
 
     def oracle(self, case, res):
         try:
-            return self._oracle(case, res)
+            out = self._oracle(case, res)
+            trail = res.get("trail") if isinstance(res, dict) else None
+            if out and trail and isinstance(case, dict):
+                # the input failed after this process had run call sequences on the same topology: they belong to the failing input
+                case["after"] = (case.get("after") or []) + trail
+                out = [(k, m + f" [after, in the same process on the same topology: {trail}]") for k, m in out]
+            return out
         except Exception as e:  # noqa: BLE001 - a result of a shape no clause expected: a finding, never a crash of the check
             return [("sort-malformed-result", f"the result could not be judged ({type(e).__name__}: {e}): {str(res)[:300]}")]
 
@@ -777,6 +930,23 @@ class SortSuite(Suite):
                 out.append(("is-sorted-out/derived", f"is_sorted is False on the sorted result {desc}"))
             if not h["input_unchanged"]:
                 out.append(("sort-mutates-input", f"sort_nodes modified its argument {desc}"))
+        rep = res.get("repeat")
+        if case.get("repeat") and not out:
+            if not isinstance(rep, dict) or not isinstance(rep.get("again"), list):
+                return [("sort-malformed-result", f"no result of the repeated calls: {str(rep)[:200]}")]
+            ops = "+".join(e["op"] for e in case["repeat"]["edits"])
+            got = check_relabelling(case, rep.get("first"), case["repeat"]["first"])
+            for spec, packed in rep["again"]:
+                if got:
+                    break
+                how, entry = spec.split(":")
+                what = (f"{entry} on {'the untouched input' if how == 'same' else 'an equal input built independently'}, called after the caller edited "
+                        f"the result of an earlier {case['repeat']['first']} in place ({ops})")
+                if isinstance(packed, dict) and "exc" in packed:
+                    got = [("sort-raises", f"{what} raised {packed['exc']}: {packed.get('msg')}")]
+                else:
+                    got = check_relabelling(case, packed, what)
+            out += [(k + "/repeated", m) for k, m in got]
         return out[:4]
 
     def nontrivial(self, case, res):
@@ -784,6 +954,9 @@ class SortSuite(Suite):
             h = res.get("hist") if isinstance(res, dict) else None
             return bool(h) and len(case["ids"]) >= 3 and (h["in"]["id"] != list(range(len(case["ids"])))
                                                           or any(p >= i for i, p in zip(h["in"]["id"], h["in"]["pid"])))
+        if case.get("repeat"):  # the caller's edit really changed the earlier result
+            r = res.get("repeat") if isinstance(res, dict) else None
+            return bool(r) and len(case["ids"]) >= 3 and r.get("edited") != r.get("first")
         if case.get("names"):
             return len(case["ids"]) >= 3
         if case.get("xcols"):  # some entry is missing on a node whose row moves
@@ -796,7 +969,9 @@ FAMILIES = ("input families of the oracle suite beyond shape x numbering x colum
             "(NaN / None / NA / NaT; tables and tree objects); tables with a history (an earlier result of sort_nodes / sort_nodes_ / "
             "read_swc(sort_nodes=True) renumbered, shuffled, re-rooted, copied by ordinary pandas steps and sorted again); the caller's own column names "
             "(names=SWCNames(...) with id / pid / payload fields renamed, random names, and extra columns that are merely CALLED id / pid) through "
-            "sort_nodes, sort_nodes_, is_sorted and Tree(..., names=) + sort_tree")
+            "sort_nodes, sort_nodes_, is_sorted and Tree(..., names=) + sort_tree; the call repeated after the caller edited the earlier result in place "
+            "(re-attach / relabel through node setters, renumber 1-based, rescale a column; then the untouched input, an equal one, or another entry point "
+            "on the same topology: sort_tree, sort_nodes, sort_nodes_, sort_nodes_impl, read_swc(sort_nodes=True))")
 TECHNIQUE = ("Lean 4 theorems: the stack loop of sort_nodes_impl equals a structural pre-order on Rose (induction, any shape/numbering/row order); "
              "the output is a bijective relabelling that transports the parent relation and permutes every column, with parents before children "
              "sort_nodes_impl itself is TRANSLATED from the current source on every run (harness/translate_algo.py → Gen/AlgoSort.lean: np.full_like fillers, list-as-stack, "
